@@ -476,6 +476,9 @@ func (d Driver) Run(c *core.Ctx) error {
 			if o.Workers == 0 {
 				o.Workers = 6
 			}
+			if o.Timeout == 0 {
+				o.Timeout = 30 * time.Minute // generous: a shared machine must not turn into a machinery failure
+			}
 			seq(o)
 		}()
 	}
